@@ -95,6 +95,8 @@ pub fn export_strategy() -> BoxedStrategy<Export> {
                 }
                 _ => { let code = ["BRW", "TFI", "TF6", "MGR", "DEP", "NAC", "CON", "INT", "EFT", "RDM", ""][x as usize % 11]; let mut v = base(code, if x % 2 == 0 { symbols[sym] } else { "" }); v.extend(vec![("Quantity", "0".to_string()), ("Price", "0".to_string()), ("Gross Amount", "0".to_string()), ("Commission", "0".to_string()), ("Net Amount", d2(px, 2))]); rows.push(mk(v)); }
             }
+            // an order filled in two equal lots: the same activity twice, cell for cell
+            if (kind == "BUY" || kind == "SELL") && (x >> 11) % 8 == 0 { if let Some(last) = rows.last().cloned() { rows.push(last); } }
         }
         // layout
         let mut layout: Vec<Option<String>> = Export::canonical_layout();
@@ -236,6 +238,7 @@ fn check(e: &Export, obs: &mut Obs) -> Verdict {
     if e.rows.iter().any(|a| a.cells["Currency"] == "USD" && ["BUY", "SELL", "DIS", "LIQ"].contains(&a.cells["Action"].as_str()) && num(a, "Price", &e.numeric_cols).is_zero() && !num(a, "Commission", &e.numeric_cols).is_zero()) { obs.class("usd-zero-price-with-fee"); }
     if e.rows.iter().any(|a| a.cells["Action"] == "DIV" && a.cells["Currency"] == "USD" && a.cells["Net Amount"].starts_with('-')) { obs.class("usd-dividend-reversal"); }
     if e.layout != Export::canonical_layout() { obs.class("non-canonical-layout"); }
+    if e.rows.windows(2).any(|w| w[0].cells == w[1].cells && ["BUY", "SELL"].contains(&w[0].cells["Action"].as_str())) { obs.class("order-filled-in-two-identical-lots"); }
     if e.rows.windows(3).any(|w| w[0].cells["Action"] == "FXT" && w[1].cells["Action"] != "FXT" && w[2].cells["Action"] == "FXT" && w[0].cells["Currency"] != w[2].cells["Currency"]) { obs.class("fxt-legs-not-adjacent"); }
     if !e.numeric_cols.is_empty() { obs.class("numeric-cells"); }
     if want.iter().any(|w| w.registered) { obs.class("registered-account"); }
@@ -321,7 +324,7 @@ fn xlsx_end_to_end(tier: Tier, seed: u64, idx: u64, of: u64, stats: &mut Stats) 
 }
 
 pub fn def() -> PropDef {
-    let mut d = PropDef::new("C18", "well-formed Questrade activity exports: 1-25 activities over BUY, SELL, DIS, LIQ, DIV, FXT pairs (either leg first, now and then with an ignored activity between the legs) and the documented ignored codes; margin / TFSA / RRSP / RESP accounts (type spelled in upper, lower and mixed case); CAD and USD; signed quantities and commissions as Questrade writes them; the H038778 alias; x column layout (permutation, extra named columns, one or two blank-headed columns, a column headed by a number or a boolean cell, numeric vs string cells). In memory through office::Range -> sheet_to_txs, and end to end for a sample (real .xlsx via rust_xlsxwriter -> run_with_args -> CSV, with --no-fx / --security / --account / --usd-exchange-rate, and --security patterns matching USD.FX combined with --no-fx in either order). Oracles: multiset of emitted rows = the generator's own record of trade activities and FX rows (dates, |qty|, price, |commission|, currency, registered affiliate, implied FXT rate); signed USD.FX total = USD cash flow (exact); output independent of the layout; sorted output ordered by settlement date and, within one settlement time, USD.FX purchases (dividends included) before USD.FX sales; every row accepted by acb's parser, rate loader and Tx conversion. Non-trivial = export with a USD trade and an FXT pair, or a layout with a blank or non-text header cell. Distinct = distinct case content.");
+    let mut d = PropDef::new("C18", "well-formed Questrade activity exports: 1-25 activities over BUY, SELL, DIS, LIQ, DIV, FXT pairs (either leg first, now and then with an ignored activity between the legs) and the documented ignored codes; margin / TFSA / RRSP / RESP accounts (type spelled in upper, lower and mixed case); CAD and USD; signed quantities and commissions as Questrade writes them; the H038778 alias; orders filled in two identical lots (the same activity twice); x column layout (permutation, extra named columns, one or two blank-headed columns, a column headed by a number or a boolean cell, numeric vs string cells). In memory through office::Range -> sheet_to_txs, and end to end for a sample (real .xlsx via rust_xlsxwriter -> run_with_args -> CSV, with --no-fx / --security / --account / --usd-exchange-rate, and --security patterns matching USD.FX combined with --no-fx in either order). Oracles: multiset of emitted rows = the generator's own record of trade activities and FX rows (dates, |qty|, price, |commission|, currency, registered affiliate, implied FXT rate); signed USD.FX total = USD cash flow (exact); output independent of the layout; sorted output ordered by settlement date and, within one settlement time, USD.FX purchases (dividends included) before USD.FX sales; every row accepted by acb's parser, rate loader and Tx conversion. Non-trivial = export with a USD trade and an FXT pair, or a layout with a blank or non-text header cell. Distinct = distinct case content.");
     d.assumptions = vec!["ledger-level acceptance (e.g. USD.FX over-sale) is not the converter's contract; rows are checked for row-level acceptance", "numeric cells go through the same f64 -> Decimal conversion on both sides"];
     d.subs.push(Box::new(Sub::<Export> { name: "sheet", cases_quick: 20_000, cases_thorough: 800_000, strategy: Box::new(|_| export_strategy()), to_json: Export::to_json, from_json: Export::from_json, check }));
     d.extra = Some(xlsx_end_to_end);
